@@ -195,3 +195,74 @@ Proof.
     + right; left. split; [apply ev_op_core; exact A|exact B].
     + right; right. split; [exists j'; apply ev_op_core; exact A|auto].
 Qed.
+
+(* ---- Examples: concrete non-trivial instances of the hypotheses of the theorems --------------------------- *)
+Example f6_witness_NZ : f6_witness <> [] /\ NZ_progs f6_witness.
+Proof.
+  split; [discriminate|].
+  intros t pc k e. destruct t as [|[|[|t]]]; destruct pc as [|[|[|[|pc]]]]; simpl; try discriminate; try (destruct pc; discriminate).
+  intros [= _ <-]. discriminate.
+Qed.
+
+(* hypotheses of sleep_zero_means_elapsed / sleep_zero_elapsed_at_least: T0's usleep(500) returns 0 *)
+Example ex_sleep_zero :
+  exists ev d, In ev (s_trace (run_state 100 f6_witness)) /\ ev_cop f6_witness ev = Some (OUsleep d) /\
+               ev_ret ev = 0 /\ 0 <= d /\ ev_issued ev + d <= MAX64 /\ ev_time ev - ev_issued ev = 500.
+Proof.
+  exists (nth 5 (run_trace 100 f6_witness) (mkEv 0%nat 0%nat 0 0 0 0 false [] 0%nat)), 500.
+  vm_compute. repeat split; try discriminate; tauto.
+Qed.
+
+(* hypotheses of sleep_minus1_means_interrupted: T1's usleep(200) returns -1 / errno 4 *)
+Example ex_sleep_minus1 :
+  exists ev d, In ev (s_trace (run_state 100 f6_witness)) /\ ev_cop f6_witness ev = Some (OUsleep d) /\
+               ev_ret ev = -1 /\ ev_err ev = 4.
+Proof.
+  exists (nth 4 (run_trace 100 f6_witness) (mkEv 0%nat 0%nat 0 0 0 0 false [] 0%nat)), 200.
+  vm_compute. repeat split; tauto.
+Qed.
+
+(* hypotheses of shutdown_bound_usleep: T1 is marked before it first runs; its usleep(30000) returns
+   -1 / EPERM after exactly 10000 us *)
+Definition shut_witness : list (list core_op) :=
+  [[OCreate 1%nat false; OShutdown 1%nat true; OUsleep 50000]; [OUsleep 30000]].
+Example ex_shutdown_usleep :
+  exists ev d, In ev (s_trace (run_state 100 shut_witness)) /\ ev_cop shut_witness ev = Some (OUsleep d) /\
+               ev_shut ev = true /\ expired (ev_issued ev) (timeout_of (ev_issued ev) d) = false /\
+               ev_ret ev = -1 /\ ev_err ev = EPERM /\ ev_time ev = ev_issued ev + 10000.
+Proof.
+  exists (nth 2 (run_trace 100 shut_witness) (mkEv 0%nat 0%nat 0 0 0 0 false [] 0%nat)), 30000.
+  vm_compute. repeat split; tauto.
+Qed.
+
+(* hypotheses of deadline_met and of interrupt_wakes_sleeper: after 10 steps of the F6 witness both
+   program threads sleep (deadlines 1200 and 1500) and the idler (thread 2) is the current thread *)
+Example ex_idler_round :
+  let st := run_state 10 f6_witness in
+  GI (core_progs f6_witness) st /\ s_runq st = [idler_tid st] /\
+  th_state (getth st 0%nat) = SLEEPING /\ th_state (getth st 1%nat) = SLEEPING /\
+  th_ts (getth st 1%nat) = 1200 /\ WF st.
+Proof.
+  destruct f6_witness_NZ as (A & B). destruct (run_GI_TI 10 f6_witness A B) as (G & _).
+  cbv zeta. split; [exact G|]. split; [vm_compute; reflexivity|]. split; [vm_compute; reflexivity|].
+  split; [vm_compute; reflexivity|]. split; [vm_compute; reflexivity|]. apply (gi_wf _ _ G).
+Qed.
+
+(* hypotheses of sleep_consumes_interrupt: T1's first sleep consumes delivery 2, its second sleep
+   reports delivery 5 *)
+Definition consume_witness : list (list core_op) :=
+  [[OCreate 1%nat false; OUsleep 10; OInterrupt 1%nat 4; OUsleep 100; OInterrupt 1%nat 11; OUsleep 100];
+   [OUsleep 1000; OUsleep 1000]].
+Example ex_consumes :
+  exists e1 e2, nth_error (run_trace 200 consume_witness) 3 = Some e1 /\ nth_error (run_trace 200 consume_witness) 6 = Some e2 /\
+    ev_tid e1 = ev_tid e2 /\ ev_cop consume_witness e1 = Some (OUsleep 1000) /\ ev_k e1 = [1] /\ ev_ret e1 = -1 /\
+    reports_interrupt consume_witness e2 /\ ev_src e1 = 2%nat /\ ev_src e2 = 5%nat.
+Proof.
+  exists (nth 3 (run_trace 200 consume_witness) (mkEv 0%nat 0%nat 0 0 0 0 false [] 0%nat)),
+         (nth 6 (run_trace 200 consume_witness) (mkEv 0%nat 0%nat 0 0 0 0 false [] 0%nat)).
+  split; [vm_compute; reflexivity|]. split; [vm_compute; reflexivity|].
+  split; [vm_compute; reflexivity|]. split; [vm_compute; reflexivity|].
+  split; [vm_compute; reflexivity|]. split; [vm_compute; reflexivity|].
+  split; [|split; vm_compute; reflexivity].
+  left. exists 1000. vm_compute. split; [reflexivity|]. split; [reflexivity|discriminate].
+Qed.
